@@ -3,6 +3,8 @@ package rules
 import (
 	"go/token"
 	"go/types"
+	"sort"
+	"strings"
 
 	"golang.org/x/tools/go/ssa"
 
@@ -190,5 +192,83 @@ func decodeHooks(c *an.Ctx, rule string) {
 	}
 	if n == 0 {
 		c.OK(rule, "module:decode-hooks", token.NoPos, "no decode hook is defined in the module (the decoder uses mapstructure's own StringToTimeDurationHookFunc)")
+	}
+}
+
+// decoderOptions implements C15.9.
+func decoderOptions(c *an.Ctx, rule string, scope map[*ssa.Function][]an.CallEdge) {
+	p := c.P
+	ctors := map[string]bool{"encoding/json.NewDecoder": true, "gopkg.in/yaml.v2.NewDecoder": true, "github.com/pelletier/go-toml.NewDecoder": true}
+	allowed := map[string]bool{"Decode": true, "More": true, "Buffered": true, "InputOffset": true, "Token": true}
+	n := 0
+	var fns []*ssa.Function
+	for f := range scope {
+		if f.Blocks != nil {
+			fns = append(fns, f)
+		}
+	}
+	sort.Slice(fns, func(i, j int) bool { return fns[i].String() < fns[j].String() })
+	for _, fn := range fns {
+		an.EachInstr(fn, func(in ssa.Instruction) {
+			call, ok := in.(*ssa.Call)
+			if !ok || call.Call.IsInvoke() || call.Call.StaticCallee() == nil {
+				return
+			}
+			callee := call.Call.StaticCallee()
+			if callee.Pkg == nil || !ctors[callee.Pkg.Pkg.Path()+"."+callee.Name()] {
+				return
+			}
+			n++
+			// every use of the decoder (through locals and φs)
+			var bad []string
+			seen := map[ssa.Value]bool{}
+			var follow func(v ssa.Value)
+			follow = func(v ssa.Value) {
+				if seen[v] || v.Referrers() == nil {
+					return
+				}
+				seen[v] = true
+				for _, ref := range *v.Referrers() {
+					switch x := ref.(type) {
+					case *ssa.Phi:
+						follow(x)
+					case *ssa.Store:
+						if al, ok := x.Addr.(*ssa.Alloc); ok && x.Val == v && al.Referrers() != nil {
+							for _, r2 := range *al.Referrers() {
+								if u, ok := r2.(*ssa.UnOp); ok && u.Op == token.MUL {
+									follow(u)
+								}
+							}
+						} else if x.Val == v {
+							bad = append(bad, "the decoder is stored in "+an.Prov(x.Addr))
+						}
+					case ssa.CallInstruction:
+						cc := x.Common()
+						m := cc.StaticCallee()
+						if m == nil || len(cc.Args) == 0 || cc.Args[0] != v || m.Signature.Recv() == nil {
+							bad = append(bad, "the decoder is handed to "+an.ShortCallee(cc))
+							continue
+						}
+						switch {
+						case allowed[m.Name()]:
+						case m.Name() == "UseNumber":
+							bad = append(bad, "UseNumber is set ("+p.Pos(x.Pos())+"): numbers of a JSON document arrive as json.Number, which has kind string but is not a string — the duration hook of the definition decoder asserts data.(string) and panics on a numeric timeout")
+						default:
+							bad = append(bad, "option "+m.Name()+" is outside the reviewed set ("+p.Pos(x.Pos())+")")
+						}
+						// chained configuration: x := dec.Opt()
+						if xv, ok := x.(ssa.Value); ok && types.Identical(xv.Type(), v.Type()) {
+							follow(xv)
+						}
+					}
+				}
+			}
+			follow(call)
+			bad = dedup(bad)
+			c.Check(len(bad) == 0, rule, an.Short(fn)+":"+callee.Pkg.Pkg.Name()+".NewDecoder", call.Pos(), "only Decode is called on the decoder (default options)", strings.Join(bad, "; "))
+		})
+	}
+	if n == 0 {
+		c.OK(rule, "format decoders", token.NoPos, "no json/yaml/toml decoder object is built in the load scope (%d functions): nothing can be configured", len(fns))
 	}
 }
